@@ -352,7 +352,8 @@ static void c_op(char *line)
 		}
 		if (is_raw && ((struct archive_write *)a)->archive.state == ARCHIVE_STATE_DATA) {
 			if (rawlen + len > rawcap) { rawcap = (rawlen + len) * 2 + 64; rawbuf = realloc(rawbuf, rawcap); }
-			memcpy(rawbuf + rawlen, b, len); rawlen += len;
+			if (len) memcpy(rawbuf + rawlen, b, len);
+			rawlen += len;
 		}
 		scribble();
 		la_ssize_t r = archive_write_data(a, b, len);
